@@ -567,6 +567,12 @@ func (c *simCluster) handleProduce(b *simBroker, r *ProduceRequest, wire int) (e
 			kinds = append(kinds, []interface{}{int(bt.part), "retry"})
 			continue
 		}
+		if strings.HasPrefix(kind, "code:") {
+			n, _ := strconv.Atoi(kind[5:])
+			resp.AddTopicPartition(simTopic, bt.part, KError(n))
+			kinds = append(kinds, []interface{}{int(bt.part), kind})
+			continue
+		}
 		if kind == "fatal" {
 			resp.AddTopicPartition(simTopic, bt.part, ErrInvalidRequiredAcks)
 			kinds = append(kinds, []interface{}{int(bt.part), "fatal"})
